@@ -84,6 +84,10 @@ def build_cases(tier, seed):
         c = cc.Case()
         c.sc, c.profile, c.mode, c.seed = gen.gen_replace_by_own_name(seed * 1000 + k), "replace_by_own_name", ("loop" if k % 2 else "dispatch"), seed * 1000 + k
         cases.append(c)
+    for k in range(max(12, n // 100)):
+        c = cc.Case()
+        c.sc, c.profile, c.mode, c.seed = gen.gen_tick_in_flush(seed * 1000 + k), "tick_in_flush", ("loop" if k % 2 else "dispatch"), seed * 1000 + k
+        cases.append(c)
     for prof, g in (("task_hostile", gen.gen_task_hostile), ("restart_in_stop", gen.gen_restart_in_stop)):
         for k in range(3):
             c = cc.Case()
